@@ -128,24 +128,30 @@ def run(ctx, rep):
                           'the entry size' % name)
 
     # ---------------- K4 extents
-    EX = None
+    # wherever an `Extent` is built (the closure of `File::extents` on the pinned tree; an iterator adaptor's `next` elsewhere)
+    builders = []
     for nm, fn in facts.fns.items():
-        if nm.startswith('fatfs::file::File::extents::{closure'):
-            EX = fn
-    if EX is None:
-        rep.machinery('ANCHOR-MISSING File::extents closure')
-    else:
-        d = Deps(EX)
-        ok = False
-        for bi in EX.reachable():
-            for s in EX.blocks[bi]['stmts']:
+        if fn.crate not in ('fatfs', 'fatfs-inlined') or nm.startswith('<fatfs::file::Extent as '):  # (derived Clone copies)
+            continue
+        for bi in fn.reachable():
+            for s in fn.blocks[bi]['stmts']:
                 if s['k'] == 'assign' and s['rv']['k'] == 'agg' and s['rv'].get('adt') == 'fatfs::file::Extent':
-                    f = s['rv']['fields']
-                    to = d.of_operand(s['rv']['ops'][f.index('offset')])
-                    ts = d.of_operand(s['rv']['ops'][f.index('size')])
-                    if any(tk[0] == 'call' and tk[1].endswith('::offset_from_cluster') for tk in to) and any(
-                            tk[0] == 'call' and tk[1].endswith('::min') for tk in ts):
-                        ok = True
+                    builders.append((fn, s))
+    if not builders:
+        rep.machinery('ANCHOR-MISSING no function builds a fatfs::file::Extent')
+    for EX in sorted({fn.name for fn, _s in builders}):
+        EX = facts.fns[EX]
+        d = Deps(EX)
+        ok = True
+        for fn, s in builders:
+            if fn is not EX:
+                continue
+            f = s['rv']['fields']
+            to = d.of_operand(s['rv']['ops'][f.index('offset')])
+            ts = d.of_operand(s['rv']['ops'][f.index('size')])
+            if not (any(tk[0] == 'call' and tk[1].endswith('::offset_from_cluster') for tk in to) and any(
+                    tk[0] == 'call' and tk[1].endswith('::min') for tk in ts)):
+                ok = False
         rep.oblige('K4', EX.name, ok=ok, nontrivial=True)
         if not ok:
             rep.violation('K4', vkey('K4', EX.name, 'extent', ''), EX.loc(EX.span),
